@@ -21,6 +21,7 @@ import (
 	"os"
 	"os/exec"
 	"sync"
+	"syscall"
 	"testing"
 	"time"
 )
@@ -73,8 +74,18 @@ func ServeChild(t *testing.T, childTest string, handle func(job []byte) []byte) 
 	os.Exit(0)
 }
 
+// DieWithParent makes the kernel kill the child when the process that started it dies (a test
+// binary that runs into its time-out cannot clean up: a worker spinning in a loop would stay for ever).
+func DieWithParent(cmd *exec.Cmd) {
+	if cmd.SysProcAttr == nil {
+		cmd.SysProcAttr = &syscall.SysProcAttr{}
+	}
+	cmd.SysProcAttr.Pdeathsig = syscall.SIGKILL
+}
+
 func (p *ProcPool) spawn() (*procWorker, error) {
 	cmd := exec.Command(os.Args[0], "-test.run=^"+p.ChildTest+"$", "-test.timeout=0")
+	DieWithParent(cmd)
 	cmd.Env = append(append(os.Environ(), "VERIF_CHILD="+p.ChildTest, "VERIF_OUT=", "GOMAXPROCS=2"), p.Env...)
 	cmd.Dir = p.Dir
 	stdin, err := cmd.StdinPipe()
